@@ -70,3 +70,13 @@ func Judge(sys *gtier.System, r *Request) (string, string) {
 	}
 	return "", ""
 }
+
+// JudgeDelivery is Judge without the cryptographic check of a 200 body: for properties that promise
+// that a response arrives complete (graceful shutdown), not what a proof must satisfy.
+func JudgeDelivery(sys *gtier.System, r *Request) (string, string) {
+	cls, detail := Judge(sys, r)
+	if cls == "proof-does-not-verify-for-own-request" || cls == "grey-input-answered-200-with-invalid-proof" {
+		return "", ""
+	}
+	return cls, detail
+}
